@@ -92,6 +92,21 @@ struct DigestVisitor
     template <class V> void operator()(V const& v) const { *out = view_digest(v); *w = (long)v.width(); *h = (long)v.height(); }
 };
 
+struct ChanSmooth
+{
+    uint64_t seed; std::ptrdiff_t x, y; mutable int c = 0;
+    template <class C> void operator()(C&& ch) const
+    {
+        using CT = gil::channel_traits<typename std::remove_reference<C>::type>;
+        using VT = typename CT::value_type;
+        double lo = (double)CT::min_value(), hi = (double)CT::max_value();
+        long t = (long)((seed >> (8 * c)) % 510 + (uint64_t)(2 * x + 3 * y + 40 * c)) % 510;
+        ++c;
+        double f = (t < 256 ? t : 510 - t) / 255.0;
+        ch = VT(lo + (hi - lo) * f);
+    }
+};
+
 // deterministic content for generated images
 template <class View> void fill_pattern(View const& v, uint64_t seed, int mode = 0)
 {
@@ -100,6 +115,13 @@ template <class View> void fill_pattern(View const& v, uint64_t seed, int mode =
         for (std::ptrdiff_t x = 0; x < v.width(); ++x)
         {
             value_t p;
+            if (mode == 3)
+            {
+                // smooth content: triangle wave with small slopes, no discontinuities (for lossy formats)
+                gil::static_for_each(p, ChanSmooth{seed, x, y});
+                v(x, y) = p;
+                continue;
+            }
             uint64_t k = mode == 1 ? seed : mode == 2 ? mix(seed, (uint64_t)((x / 4) + 7 * (y / 4))) : mix(seed, (uint64_t)(y * 65537 + x));
             gil::static_for_each(p, ChanSet{k});
             v(x, y) = p;
@@ -468,7 +490,8 @@ struct Format
 {
     std::string name, ext;
     std::vector<Variant> variants;
-    std::vector<std::string> native_types, convert_types;
+    std::vector<std::string> native_types, convert_types, write_types;
+    std::vector<std::string> write_options; // format specific option names understood by roundtrip()
     std::vector<std::string> devices;
     bool has_scanline = true, has_any = true;
     std::function<bool(std::string const& variant, int w, int h, uint64_t cseed, Bytes& out)> make;
